@@ -412,6 +412,83 @@ func ruleMessageReads(c *core.Ctx) {
 	}
 	ok := assigns(mr, 0)
 	c.Check(ok, rule, "bus/net.Message.Read/payload-assigned", mr.Pos(), "Payload is (re)assigned on every success path", "Message.Read can succeed without assigning Payload (zero-size message): a reused Message keeps the previous payload, which no longer matches Header.Size")
+	// the payload handed out is storage of this read alone: what is stored into Payload
+	// is never derived from the previous payload of the receiver, from a package-level
+	// variable or from a pool (a later read would overwrite a message already handed out)
+	stale := ""
+	var stalePos token.Pos
+	for _, su := range unit {
+		for _, b := range su.fn.Blocks {
+			for _, x := range b.Instrs {
+				st, ok := x.(*ssa.Store)
+				if !ok || !isFieldOf(st.Addr, payloadF) {
+					continue
+				}
+				if why := sharedStorage(st.Val, payloadF, map[ssa.Value]bool{}); why != "" && stale == "" {
+					stale, stalePos = why, st.Pos()
+				}
+			}
+		}
+	}
+	if stalePos == token.NoPos {
+		stalePos = mr.Pos()
+	}
+	c.Check(stale == "", rule, "bus/net.Message.Read/payload-fresh", stalePos, "the payload stored is storage of this read alone", "the payload buffer filled by Message.Read is "+stale+": reading the next message overwrites the payload of a message already handed out (a sequence read back into one Message, a reply read over its request)")
+}
+
+// sharedStorage follows a slice value back through re-slices, conversions, phis and
+// single-assignment locals; it answers how the value is backed by storage that outlives
+// the current call ("" when it is not: a make, an append to nil, a literal, a parameter).
+func sharedStorage(v ssa.Value, fld *types.Var, seen map[ssa.Value]bool) string {
+	v = core.Canon(v)
+	if seen[v] {
+		return ""
+	}
+	seen[v] = true
+	switch x := v.(type) {
+	case *ssa.Slice:
+		return sharedStorage(x.X, fld, seen)
+	case *ssa.Phi:
+		for _, e := range x.Edges {
+			if why := sharedStorage(e, fld, seen); why != "" {
+				return why
+			}
+		}
+	case *ssa.ChangeType:
+		return sharedStorage(x.X, fld, seen)
+	case *ssa.Convert:
+		return sharedStorage(x.X, fld, seen)
+	case *ssa.TypeAssert:
+		return sharedStorage(x.X, fld, seen)
+	case *ssa.Extract:
+		return sharedStorage(x.Tuple, fld, seen)
+	case *ssa.UnOp:
+		if x.Op != token.MUL {
+			return ""
+		}
+		if isFieldOf(x.X, fld) {
+			return "a re-slice of the payload the receiver already held"
+		}
+		if g, ok := x.X.(*ssa.Global); ok {
+			return "backed by the package-level variable " + g.Name()
+		}
+		if fa, ok := x.X.(*ssa.FieldAddr); ok {
+			if _, isSlice := fa.Type().(*types.Pointer).Elem().Underlying().(*types.Slice); isSlice {
+				return "backed by a buffer kept in a struct field across reads"
+			}
+		}
+	case *ssa.Call:
+		if core.MethodCall(x, "sync", "Pool", "Get") {
+			return "taken from a sync.Pool"
+		}
+		if f := x.Call.StaticCallee(); f != nil && f.Name() == "append" {
+			return ""
+		}
+		if b, ok := x.Call.Value.(*ssa.Builtin); ok && b.Name() == "append" && len(x.Call.Args) > 0 {
+			return sharedStorage(x.Call.Args[0], fld, seen)
+		}
+	}
+	return ""
 }
 
 func ruleNewMessage(c *core.Ctx) {
